@@ -133,14 +133,16 @@ class RequestHandlerBase(MethodView):
 
         if start_str == '':
             amount: int = int(end_str, 10)
-            start = content_length - amount
+            # a suffix longer than the resource selects the whole resource
+            start = max(0, content_length - amount)
             end = content_length - 1
         else:
             start = int(start_str, 10)
             if end_str == '':
                 end = content_length - 1
             else:
-                end = int(end_str, 10)
+                # a last-byte-pos beyond the end is clamped (RFC 7233 section 2.1)
+                end = min(int(end_str, 10), content_length - 1)
 
         status: int = 206
         headers: dict[str, str] = {
